@@ -38,9 +38,9 @@ func Run(cfg hx.Config) (*hx.Meta, error) {
 	cat := ga.NewCatalogue()
 	var types []*ga.Type
 	if cfg.Tier == "thorough" {
-		types = cat.Shapes(r, 2, 400)
+		types = append(cat.Special(), cat.Shapes(r, 2, 400)...)
 	} else {
-		types = cat.Shapes(r, 1, 30)
+		types = append(cat.Special(), cat.Shapes(r, 1, 30)...)
 		d2 := cat.Shapes(r, 2, 0)
 		hx.Shuffle(r, d2)
 		types = ga.Dedup(append(types, d2[:50]...))
@@ -106,6 +106,16 @@ var forms = []form{
 	}},
 	{"nested-derive-call", func(t, z string) (string, string) {
 		return "f_nested.go", "package main\n\nfunc nested(m map[string]" + t + ", a " + t + ") ([]string, bool) {\n\treturn deriveSortN(deriveKeysN(m)), deriveEqualN(deriveCloneN(a), a)\n}\n"
+	}},
+	{"deeply-nested-derive-calls", func(t, z string) (string, string) {
+		return "f_deep.go", "package main\n\nfunc deep(m map[string]" + t + ") ([]string, int) {\n" +
+			"\ta := deriveUniqueD(deriveSortD(deriveKeysD(deriveSetD(deriveKeysD2(m)))))\n" +
+			"\tk := deriveKeysD2(m)\n\ts := deriveSetD(k)\n\tk2 := deriveKeysD(s)\n\tso := deriveSortD(k2)\n\tu := deriveUniqueD(so)\n\tj := deriveJoinD(deriveFmapD(func(x string) []string { return []string{x} }, u))\n" +
+			"\treturn a, len(deriveUnionD(j, deriveIntersectD(a, u)))\n}\n"
+	}},
+	{"call-inside-conversion", func(t, z string) (string, string) {
+		return "f_conv.go", "package main\n\nfunc conv(a, b " + t + ") (int, float64, string, uint8) {\n" +
+			"\treturn int(deriveHashConv(a) % 7), float64(deriveCompareConv(a, b)), string(rune(deriveHashConv(b)%26 + 'a')), uint8(len(deriveGoStringConv(a)))\n}\n"
 	}},
 	{"test-file", func(t, z string) (string, string) {
 		return "f_x_test.go", "package main\n\nfunc inTest(a " + t + ") uint64 { return deriveHashT(a) }\n"
